@@ -587,14 +587,15 @@ func hash(name string) uint32 {
 }
 
 func (m *mappedFile) load32(off uint32) uint32 {
-	if int64(off) >= int64(len(m.mapping.Data)) {
+	if int64(off)+4 > int64(len(m.mapping.Data)) {
+		// The whole 4-byte word must lie inside the data.
 		return 0
 	}
 	return (*atomic.Uint32)(unsafe.Pointer(&m.mapping.Data[off])).Load()
 }
 
 func (m *mappedFile) cas32(off, old, new uint32) bool {
-	if int64(off) >= int64(len(m.mapping.Data)) {
+	if int64(off)+4 > int64(len(m.mapping.Data)) {
 		panic("bad cas32") // return false would probably loop
 	}
 	return (*atomic.Uint32)(unsafe.Pointer(&m.mapping.Data[off])).CompareAndSwap(old, new)
